@@ -373,6 +373,27 @@ class C12(PropertyCheck):
             return True
         return bool(np.all(np.abs(a - b) <= tol * np.maximum(1.0, np.maximum(np.abs(a), np.abs(b)))))
 
+    @staticmethod
+    def _rect_tie(src, mesh_shape, margin=Fraction(1, 10**6)):
+        """exact test: does a source-plane point lie within `margin` (in mesh-pixel units) of an INTERIOR
+        cell boundary of the overlaid rectangular mesh?  There float rounding may pick either cell."""
+        pts = [(Fraction(a), Fraction(b)) for a, b in src]
+        buf = Fraction(1e-8)
+        out = False
+        for axis, S in ((0, mesh_shape[0]), (1, mesh_shape[1])):
+            lo = min(p[axis] for p in pts) - buf
+            hi = max(p[axis] for p in pts) + buf
+            if hi == lo:
+                continue
+            for p in pts:
+                c = (hi - p[axis]) / (hi - lo) * S if axis == 0 else (p[axis] - lo) / (hi - lo) * S
+                if c < Fraction(1, 2) or c > S - Fraction(1, 2):
+                    continue
+                f = c - (c.numerator // c.denominator)
+                if min(f, 1 - f) < margin:
+                    out = True
+        return out
+
     def oracle(self, case, obs):
         if "err" in obs and "at_o" not in obs:
             return False, f"implementation raised {obs}"
@@ -387,6 +408,9 @@ class C12(PropertyCheck):
                     return False, f"{name}: raises {e0.get('err')} at both origins {e0.get('msg','')}"
                 continue
             k, v0, v1 = e0["kind"], e0["value"], e1["value"]
+            if name == "mapper_rectangular" and (self._rect_tie(v0["src"], case["mesh"])
+                                                  or self._rect_tie(v1["src"], case["mesh"])):
+                continue  # tie band of a mesh-cell boundary: either cell is acceptable
             if k == "coord":
                 a0 = np.asarray(v0, dtype=float).reshape(-1, 2)
                 a1 = np.asarray(v1, dtype=float).reshape(-1, 2)
